@@ -1,8 +1,71 @@
 From Coq Require Import ZArith NArith List Bool Lia Arith ZifyBool ZifyN ZifyNat.
 Import ListNotations.
-Require Import SR.Base.Res SR.Spec.Conversion SR.Gen.ConversionParams SR.Model.Conversion.
+Require Import SR.Base.Res SR.Spec.Conversion SR.Gen.ConversionParams SR.Gen.ConversionBodyParams SR.Model.Conversion.
 Open Scope Z_scope.
 Ltac Zify.zify_post_hook ::= Z.to_euclidean_division_equations.
+
+(* ================= what the regenerated body parameters say =================
+
+   Model/Conversion.v is parameterised by Gen/ConversionBodyParams.v, which harness/t1_c16.py writes
+   from the bodies of digit_string and decimal_places in the source under test.  The lemmas of this
+   section state the shape the rest of this file is about; they hold by computation for the
+   parameter values of the unchanged source and fail to compile for any other value
+   (str(value) instead of str(int(value)), another padding, another slice, another quantum exponent, a
+   detour through repr/str/float, a rounding argument other than ROUND_HALF_EVEN, a context argument,
+   another binding of digits_5 / decimal_2).  Nothing below this section mentions a parameter. *)
+
+Definition zeros (n : nat) : list N := repeat 48%N n.
+
+(* s[-size:] *)
+Definition py_last (size : nat) (s : list N) : list N :=
+  match size with
+  | O => s
+  | _ => skipn (length s - size) s
+  end.
+
+Lemma pre_text_int x : pre_text ds_pre x = str_int (int_of_dec x).
+Proof. reflexivity. Qed.
+
+Lemma padding_zeros n : padding ds_pad_char ds_pad_extra n = zeros n.
+Proof. unfold padding, zeros, ds_pad_char, ds_pad_extra. rewrite Z.add_0_r, Nat2Z.id. reflexivity. Qed.
+
+Lemma padded_left pad s : padded ds_pad_side pad s = pad ++ s.
+Proof. reflexivity. Qed.
+
+Lemma py_slice_last n s : py_slice n ds_slice_lo ds_slice_hi s = py_last n s.
+Proof.
+  unfold py_slice, py_last, ds_slice_lo, ds_slice_hi, py_index. rewrite firstn_all.
+  destruct n; reflexivity.
+Qed.
+
+(* digit_string(size, value) = (size * "0" + str(int(value)))[-size:] *)
+Lemma digit_string_shape n x :
+  digit_string n x = bind (str_int (int_of_dec x)) (fun s => Ok (py_last n (zeros n ++ s))).
+Proof.
+  unfold digit_string, digit_string_with. rewrite pre_text_int.
+  destruct (str_int (int_of_dec x)) as [s|e]; cbn [bind]; [|reflexivity].
+  rewrite padded_left, padding_zeros, py_slice_last. reflexivity.
+Qed.
+
+(* decimal_places(digits, value) = Decimal(value).quantize(Decimal(1).scaleb(-digits)) *)
+Lemma decimal_places_shape d x : decimal_places d x = bind (quantum_exp d) (quantize x).
+Proof. reflexivity. Qed.
+
+(* no rounding argument: the default context rounds half to even *)
+Lemma round_div_default sneg c p : round_div dp_rounding sneg c p = round_half_even c p.
+Proof. reflexivity. Qed.
+
+(* Decimal(b).scaleb(-digits) for an integer literal b of at most 28 digits (today b = 1): quantize
+   reads only the exponent of its argument, so the lemmas below do not depend on which b it is *)
+Lemma quantum_shape : exists b : N, dp_quantum = QScaleb b (-1) 0 /\ 0 <= Z.of_N b < 10 ^ 28.
+Proof. eexists. split; [reflexivity|]. split; [apply N2Z.is_nonneg|reflexivity]. Qed.
+
+(* digits_5 = partial(digit_string, 5); decimal_2 = partial(decimal_places, 2) *)
+Lemma digits_5_is x : digits_5 x = bind (digit_string 5 x) (fun s => Ok (inl s)).
+Proof. reflexivity. Qed.
+
+Lemma decimal_2_is x : decimal_2 x = bind (decimal_places 2 x) (fun r => Ok (inr r)).
+Proof. reflexivity. Qed.
 
 (* ================= digit strings ================= *)
 
@@ -170,7 +233,7 @@ Lemma digit_string_int (n : nat) (x : dec) v :
   exists s, digit_string n x = Ok s /\ length s = n /\ forallb is_digit s = true /\
             dval s = v mod 10 ^ Z.of_nat n.
 Proof.
-  intros Hn Hx Hv. unfold digit_string. rewrite Hx, (str_int_nonneg v Hv). cbn [bind].
+  intros Hn Hx Hv. rewrite digit_string_shape, Hx, (str_int_nonneg v Hv). cbn [bind].
   destruct (str_nonneg_spec v (proj1 Hv)) as (Hd & Hval & _).
   eexists. split; [reflexivity|].
   assert (Hdl : forallb is_digit (zeros n ++ str_nonneg v) = true)
@@ -250,11 +313,25 @@ Proof.
     + replace ((q0 + 1) * p) with (q0 * p + p) by ring. lia.
 Qed.
 
+Lemma ndigits_le c (n : nat) : 0 <= c < 10 ^ Z.of_nat n -> (1 <= n)%nat -> 1 <= ndigits c <= Z.of_nat n.
+Proof.
+  intros Hc Hn. unfold ndigits.
+  destruct (str_nonneg_spec c (proj1 Hc)) as (_ & _ & Hlen).
+  specialize (Hlen n Hn (proj2 Hc)).
+  assert (H1 : (1 <= length (str_nonneg c))%nat).
+  { unfold str_nonneg. rewrite digs_S. destruct (c <? 10); [cbn [length]; lia|].
+    rewrite app_length. cbn [length]. lia. }
+  lia.
+Qed.
+
 Lemma quantum_exp_ok d : 0 <= d <= - etiny -> quantum_exp d = Ok (- d).
 Proof.
-  unfold quantum_exp, etiny, emax, prec. intros H.
-  destruct (2 * (999999 + 28) <? d) eqn:E1; [lia|].
-  destruct (999999 <? - d) eqn:E2; [lia|].
+  intros H. destruct quantum_shape as (b & Hq & Hb).
+  unfold quantum_exp. rewrite Hq. unfold quantum_exp_with.
+  pose proof (ndigits_le (Z.of_N b) 28 Hb ltac:(lia)) as Hn. change (Z.of_nat 28) with 28 in Hn.
+  unfold etiny, emax, prec in *.
+  destruct ((-1 * d + 0 <? - (2 * (999999 + 28))) || (2 * (999999 + 28) <? -1 * d + 0)) eqn:E1; [lia|].
+  destruct (999999 <? -1 * d + 0 + ndigits (Z.of_N b) - 1) eqn:E2; [lia|].
   f_equal. lia.
 Qed.
 
@@ -262,7 +339,7 @@ Qed.
 Lemma quantize_fixed s q e : etiny <= e <= emax -> 0 <= q < 10 ^ prec ->
   quantize (mkdec s (Z.to_N q) e) e = Ok (mkdec s (Z.to_N q) e).
 Proof.
-  intros He Hq. unfold quantize. cbn [neg coef dexp].
+  intros He Hq. unfold quantize, quantize_with. cbn [neg coef dexp].
   destruct ((e <? etiny) || (emax <? e)) eqn:G; [lia|].
   rewrite Z2N.id by lia.
   destruct (q =? 0) eqn:E0.
@@ -280,12 +357,13 @@ Lemma decimal_places_ok d x : 0 <= d <= - etiny -> fitsb d x = true ->
   exists r, decimal_places d x = Ok r /\ dexp r = - d /\ closeb d x r = true /\
             decimal_places d r = Ok r.
 Proof.
-  intros Hd Hfit. unfold decimal_places. rewrite (quantum_exp_ok d Hd). cbn [bind].
+  intros Hd Hfit. rewrite !decimal_places_shape. setoid_rewrite decimal_places_shape.
+  rewrite (quantum_exp_ok d Hd). cbn [bind].
   assert (He : etiny <= - d <= emax) by (unfold etiny, emax in *; lia).
   set (e := - d) in *.
   unfold fitsb, common in Hfit. fold e in Hfit.
   unfold closeb, common, scaled, sgn. fold e.
-  unfold quantize at 1.
+  unfold quantize at 1. unfold quantize_with. rewrite round_div_default.
   destruct ((e <? etiny) || (emax <? e)) eqn:G; [lia|].
   set (c := Z.of_N (coef x)) in *.
   assert (Hc : 0 <= c) by (unfold c; lia).
@@ -357,11 +435,11 @@ Qed.
 Lemma decimal_places_err d x : 0 <= d <= - etiny -> fitsb d x = false ->
   decimal_places d x = Err DecimalInvalid.
 Proof.
-  intros Hd Hfit. unfold decimal_places. rewrite (quantum_exp_ok d Hd). cbn [bind].
+  intros Hd Hfit. rewrite decimal_places_shape, (quantum_exp_ok d Hd). cbn [bind].
   assert (He : etiny <= - d <= emax) by (unfold etiny, emax in *; lia).
   set (e := - d) in *.
   unfold fitsb, common in Hfit. fold e in Hfit.
-  unfold quantize.
+  unfold quantize, quantize_with. rewrite round_div_default.
   destruct ((e <? etiny) || (emax <? e)) eqn:G; [lia|].
   set (c := Z.of_N (coef x)) in *.
   assert (Hc : 0 <= c) by (unfold c; lia).
@@ -412,3 +490,35 @@ Qed.
 
 Lemma beyond_limit : digit_string 4301 (mkdec false 1 4300) = Err ValueError.
 Proof. vm_compute. reflexivity. Qed.
+
+(* ================= the partial() instances the module exports ================= *)
+
+(* digits_5: five digits for every integer below 10^5, however it arrives *)
+Lemma digits_5_exact (x : dec) (v : Z) :
+  represents x v -> 0 <= v < 10 ^ 5 ->
+  exists s, digits_5 x = Ok (inl s) /\
+            length s = 5%nat /\ forallb is_digit s = true /\ dval s = v.
+Proof.
+  intros Hr Hv. rewrite digits_5_is.
+  destruct (digit_string_exact 5 x v) as (s & Hs & H); [lia|exact Hr|exact Hv|].
+  exists s. rewrite Hs. split; [reflexivity|exact H].
+Qed.
+
+(* decimal_2: two fractional digits, within half a cent, idempotent *)
+Lemma decimal_2_ok (x : dec) :
+  fitsb 2 x = true ->
+  exists r, decimal_2 x = Ok (inr r) /\ dexp r = - 2 /\ closeb 2 x r = true /\
+            decimal_2 r = Ok (inr r).
+Proof.
+  intros Hfit.
+  destruct (decimal_places_ok 2 x) as (r & Hr & He & Hc & Hi); [unfold etiny; lia|exact Hfit|].
+  exists r. rewrite !decimal_2_is, Hr, Hi. repeat split; assumption.
+Qed.
+
+(* the doctests: digits_5(1020), digits_5(Decimal(1.02E+3)), decimal_2(3.99) (the float), decimal_2(Decimal(0.125)) *)
+Lemma partial_examples :
+  digits_5 (mkdec false 1020 0) = Ok (inl [48; 49; 48; 50; 48]%N) /\
+  digits_5 (mkdec false 102 1) = Ok (inl [48; 49; 48; 50; 48]%N) /\
+  decimal_2 (mkdec false 39900000000000002131628207280300557613372802734375 (-49)) = Ok (inr (mkdec false 399 (-2))) /\
+  decimal_2 (mkdec false 125 (-3)) = Ok (inr (mkdec false 12 (-2))).
+Proof. vm_compute. repeat split; reflexivity. Qed.
